@@ -57,6 +57,17 @@ func (e3Engine) Gen(prop string, seed int64, tier string) *Plan {
 		kind = -kind
 	}
 	p.Steps = append(p.Steps, Step{K: "call", A: kind, B: r.IntN(64), C: r.IntN(64), D: r.IntN(64)})
+	if kind >= 23 {
+		// mutations through a relation need the Book collection, and books to work on
+		p.Cfg["rel"] = 1
+		for i := 0; i < 3; i++ {
+			p.Steps = append([]Step{{K: "pre", A: 0, B: 7 + i, C: 3 + i, D: 11 + i}, {K: "pre", A: 1, B: 5 + i, C: i, D: 2 + i}}, p.Steps...)
+			if i == 0 {
+				// after the users exist: one of them holds a card
+				p.Steps = append(p.Steps[:len(p.Steps)-1:len(p.Steps)-1], Step{K: "pre", A: 5, B: 1, C: 1, D: 1}, p.Steps[len(p.Steps)-1])
+			}
+		}
+	}
 	return p
 }
 
@@ -196,6 +207,11 @@ func (w *e3World) pre(i int, s Step) {
 		if len(users) > 1 {
 			u := users[mod(s.C, len(users))]
 			n.GQL(fmt.Sprintf(`mutation { delete_User(docID: %q) { _docID } }`, u["_docID"]))
+		}
+	case 5:
+		if w.p.cfg("rel", 0) == 1 && len(users) > 0 {
+			u := users[mod(s.C, len(users))]
+			n.GQL(fmt.Sprintf(`mutation { create_Card(input: {code: %q, holder: %q}) { _docID } }`, fmt.Sprintf("c%d", i), u["_docID"]))
 		}
 	case 4:
 		// a schema patch in the pre-state, so that version switches have something to switch between
@@ -342,6 +358,11 @@ func runC05(p *Plan, res *Result) {
 		return
 	}
 	w.env.users = w.queryUsers(w.n)
+	if w.p.cfg("rel", 0) == 1 {
+		if bd, errs := w.n.GQL(`query { Book { _docID } }`); len(errs) == 0 {
+			w.env.books = sortRows(rows(bd, "Book"), "_docID")
+		}
+	}
 	kind := callKindName(call.A)
 	ac := buildCall(call, w.env)
 	withCommits := true
